@@ -48,6 +48,11 @@ pub struct SpawnSpec {
     pub via_exec: bool,
     /// after a successful start: close the parent's read end of stdout and expect the child to die of SIGPIPE
     pub sigpipe_probe: bool,
+    /// before this spawn the caller re-points its own descriptor 1 or 2 to another file
+    /// (dup2 of a log file onto stdout, say): "inherited" and "merged onto an inherited
+    /// stream" mean the parent's stream as it is at the time of the spawn
+    #[serde(default)]
+    pub repoint_before: Option<u8>,
 }
 
 impl Default for SpawnSpec {
@@ -67,6 +72,7 @@ impl Default for SpawnSpec {
             keep: false,
             via_exec: false,
             sigpipe_probe: false,
+            repoint_before: None,
         }
     }
 }
@@ -518,7 +524,17 @@ pub fn run(plan: &Plan, sp: &SpawnPlan) -> FamOut {
     if sp.threads == 0 {
         let pool = Pool::new("m");
         let mut kept: Vec<Popen> = vec![];
+        let mut boot = boot;
         for (si, spec) in sp.spawns.iter().enumerate() {
+            if let Some(fd) = spec.repoint_before {
+                // the caller's own doing, not a library call: straight on the kernel
+                let s = sim();
+                let nf = s.k.mk_file(PARENT_PID, &format!("repointed{}", si), vec![], false);
+                let _ = s.k.k_dup2(PARENT_PID, nf, fd as i32);
+                let _ = s.k.k_close(PARENT_PID, nf);
+                boot[fd as usize] = desc_of_parent_fd(fd as i32);
+                s.k.probe("parent_std_repointed");
+            }
             if let Some(p) = do_spawn(plan, spec, si, &pool, &boot, false, &mut nontrivial) {
                 kept.push(p);
             }
@@ -1189,6 +1205,20 @@ pub fn generate(prop: &str, rng: &mut Rng, plan: &mut Plan, index: u64) {
                     }
                 } else {
                     gen_streams(rng, &mut spec, true);
+                    if rng.chance(1, 3) {
+                        spec.repoint_before = Some(1 + rng.below(2) as u8);
+                        // make the case that matters frequent: a merge onto the inherited stream, before and after
+                        if rng.chance(1, 2) {
+                            spec.stdin = RedirSpec::None;
+                            if rng.chance(1, 2) {
+                                spec.stdout = RedirSpec::Merge;
+                                spec.stderr = RedirSpec::None;
+                            } else {
+                                spec.stdout = RedirSpec::None;
+                                spec.stderr = RedirSpec::Merge;
+                            }
+                        }
+                    }
                 }
                 // Exec refuses Merge for stdin by panicking in a From impl; use it only for valid combinations
                 let valid = spec.stdin != RedirSpec::Merge && !(spec.stdout == RedirSpec::Merge && spec.stderr == RedirSpec::Merge);
@@ -1476,6 +1506,19 @@ pub fn generate(prop: &str, rng: &mut Rng, plan: &mut Plan, index: u64) {
                 }
                 _ => spec.argv[0] = cmd.clone().into_bytes(),
             }
+            // an explicit environment for the child with a PATH of its own: the search still
+            // goes by the parent's PATH, and an impostor under the child's PATH must not run
+            if rng.chance(1, 5) {
+                let id = plan.programs.len();
+                plan.programs.push(vec![Op::Exit { code: 99 }]);
+                plan.fs.push(FsEntry { path: "/p/impostor".into(), node: Node::Dir { searchable: true }, raw: None });
+                plan.fs.push(FsEntry { path: format!("/p/impostor/{}", cmd), node: Node::Exe { prog: id }, raw: None });
+                let mut env = vec![(b"PATH".to_vec(), b"/p/impostor".to_vec())];
+                if rng.chance(1, 2) {
+                    env.insert(0, (b"HOME".to_vec(), b"/work".to_vec()));
+                }
+                spec.env = Some(env);
+            }
             // per-candidate exec errors
             if rng.chance(1, 3) {
                 let n = 1 + rng.below(3);
@@ -1590,7 +1633,9 @@ pub fn generate(prop: &str, rng: &mut Rng, plan: &mut Plan, index: u64) {
     // a parent that runs with some of its standard descriptors closed
     if matches!(prop, "C05" | "C07" | "C08" | "C17" | "C18") && sp.threads == 0 && rng.chance(1, 6) {
         let merge = sp.spawns.iter().any(|s| [s.stdin, s.stdout, s.stderr].contains(&RedirSpec::Merge));
-        if !merge {
+        // (re-pointing the parent's own streams presupposes that it has them)
+        let repoint = sp.spawns.iter().any(|s| s.repoint_before.is_some());
+        if !merge && !repoint {
             plan.parent.closed_std = 1 + rng.below(7) as u8;
             plan.parent.files_low = rng.chance(1, 2);
         }
